@@ -275,6 +275,68 @@ func envErrorPath(fd *ast.FuncDecl) string {
 	return "no-env-call"
 }
 
+// reloadResets: which of the per-load fields of Project (modules, flags, targets, indexOnly) are re-initialised on the way
+// from Reload() to the first loadPackage call: assignments `proj.<field> = …` in Reload, in load before it calls
+// loadPackage, and in the methods of the receiver those two call before that point (one level, e.g. a reset() helper).
+func reloadResets(f *lib.File) []string {
+	watch := map[string]bool{"modules": true, "flags": true, "targets": true, "indexOnly": true}
+	found := map[string]bool{}
+	var scan func(fd *ast.FuncDecl, depth int)
+	scan = func(fd *ast.FuncDecl, depth int) {
+		if fd == nil || fd.Recv == nil || len(fd.Recv.List) != 1 || len(fd.Recv.List[0].Names) != 1 {
+			return
+		}
+		recv := fd.Recv.List[0].Names[0].Name
+		stop := false
+		var walk func(n ast.Node) bool
+		walk = func(n ast.Node) bool {
+			if stop {
+				return false
+			}
+			switch n := n.(type) {
+			case *ast.FuncLit:
+				return false // deferred closures and goroutines run later
+			case *ast.AssignStmt:
+				for _, l := range n.Lhs {
+					if se, ok := l.(*ast.SelectorExpr); ok {
+						if id, ok := se.X.(*ast.Ident); ok && id.Name == recv && watch[se.Sel.Name] {
+							found[se.Sel.Name] = true
+						}
+					}
+				}
+			case *ast.CallExpr:
+				if se, ok := n.Fun.(*ast.SelectorExpr); ok {
+					if id, ok := se.X.(*ast.Ident); ok && id.Name == recv {
+						switch se.Sel.Name {
+						case "loadPackage":
+							stop = true // from here on the loader goroutines run
+							return false
+						case "load":
+							if depth == 0 {
+								scan(f.Func("Project.load"), 0)
+							}
+						default:
+							if depth == 0 {
+								scan(f.Func("Project."+se.Sel.Name), 1)
+							}
+						}
+					}
+				}
+			}
+			return true
+		}
+		ast.Inspect(fd.Body, walk)
+	}
+	scan(f.Func("Project.Reload"), 0)
+	var out []string
+	for _, k := range []string{"flags", "indexOnly", "modules", "targets"} {
+		if found[k] {
+			out = append(out, k)
+		}
+	}
+	return out
+}
+
 func strList(xs []string) string {
 	var q []string
 	for _, x := range xs {
@@ -322,6 +384,10 @@ func main() {
 	o.Def("envErrorPath", "String", lib.LeanString(envErrorPath(load)))
 	skel(pf, "Project.loadModule", "loadModuleSkeleton")
 	skel(pf, "Project.loadPackage", "loadPackageSkeleton")
+	if pf.Func("Project.Reload") == nil || pf.Func("Project.load") == nil {
+		o.Fail("func (*Project).Reload / load not found")
+	}
+	o.Def("reloadResets", "List String", strList(reloadResets(pf)))
 	if done != nil {
 		o.Def("doneShape", "List String", strList(tags(done)))
 	} else {
